@@ -271,6 +271,42 @@ def check(prog, run):
         run.report(r, "%s:Executor.complete_value:no-null-shortcut" % EXE, cv.where(), "null values are not returned as null before type dispatch")
     elif any(k in order and order.index(k) < order.index("<null>") for k in ("ListType", "ScalarType", "EnumType", "GraphQLCompositeType")):
         run.report(r, "%s:Executor.complete_value:null-after-dispatch" % EXE, cv.where(), "a type branch runs before the null short-cut")
+    # path form: for a non-null value of each kind of type, every returning path went through that kind's completion step
+    KIND_CLASSES = {
+        "NonNull": {"NonNullType", "WrappingType"}, "List": {"ListType", "WrappingType"},
+        "Scalar": {"ScalarType", "GraphQLLeafType"}, "Enum": {"EnumType", "GraphQLLeafType"},
+        "Object": {"ObjectType", "GraphQLCompositeType"}, "Abstract": {"InterfaceType", "UnionType", "GraphQLAbstractType", "GraphQLCompositeType"},
+    }
+    STEP = {"NonNull": {"complete_non_nullable_value"}, "List": {"complete_list_value"}, "Scalar": {"serialize"}, "Enum": {"get_name"},
+            "Object": {"execute_fields"}, "Abstract": {"execute_fields"}}
+    for kind, classes in KIND_CLASSES.items():
+        def decide(t, classes=classes):
+            tt = t.replace(" ", "")
+            if tt in ("resolved_valueisNone",):
+                return False
+            try:
+                e = ast.parse(t, mode="eval").body
+            except SyntaxError:
+                return None
+            if isinstance(e, ast.Call) and isinstance(e.func, ast.Name) and e.func.id == "isinstance" and len(e.args) == 2 \
+                    and isinstance(e.args[0], ast.Name) and e.args[0].id == ft:
+                named = {x.id for x in ast.walk(e.args[1]) if isinstance(x, ast.Name)}
+                return bool(named & classes)
+            return None
+        try:
+            _ev, exits = boolx.walk_under(cv.node, decide)
+        except ValueError as e:
+            raise AnalysisError("C04.K3: %s" % e)
+        rets = [(st, env) for k, st, env in exits if k == "return"]
+        r.instance("non-null value of a %s type: %d returning paths" % (kind, len(rets)))
+        for st, env in rets:
+            called = {c.func.attr for c in env.get(boolx.CALLS, ()) if isinstance(c.func, ast.Attribute)}
+            if not (called & STEP[kind]):
+                cond = ", ".join("%s=%s" % kv for kv in sorted(env.items()) if kv[0] not in (boolx.CALLS, boolx.STMTS) and "isinstance" not in kv[0])
+                run.report(r, "%s:Executor.complete_value:bypasses(%s)" % (EXE, kind), cv.where(st),
+                           "for a non-null value of a %s type complete_value can return `%s` without %s (when %s): the value is not "
+                           "completed/serialised as its type prescribes" % (kind, norm_stmt(st, 60), "/".join(sorted(STEP[kind])), cond or "always"))
+                break
     last = cv.node.body[-1]
     r.instance("final statement `%s`" % norm_stmt(last, 60))
     if not isinstance(last, ast.Raise):
@@ -437,7 +473,8 @@ def memo_sites(cls):
 def check_memo_keys(prog, run, rule_id="H2"):
     r = run.rule(rule_id, "every per-request memo table (try: return self.C[key] / except KeyError: compute and store) is keyed by "
                        "every parameter its computation depends on: a parameter used in the miss branch but absent from the key "
-                       "makes two different requests share one entry", 4)
+                       "makes two different requests share one entry; each key component stands for a whole parameter (the parameter, "
+                       "tuple()/id() of it, or the name of a named schema type), never for a lossy projection of it", 4)
     for modname, cname in ((WRAP, "ResolutionContext"), (EXE, "Executor")):
         cls = prog.get_class(modname, cname)
         for m, cache, key, handler in memo_sites(cls):
@@ -468,6 +505,38 @@ def check_memo_keys(prog, run, rule_id="H2"):
                         used.add(y.id)
             used_params = closure(used) & params
             r.instance("%s.%s: cache %s keyed by %s; miss branch uses %s" % (cname, m.name, cache, sorted(key_names), sorted(used_params)))
+            # every key component stands for the whole parameter: the parameter itself, tuple()/frozenset()/id() of it, or the
+            # `.name` of a parameter annotated as a named schema type (types are unique per name within one schema)
+            key_expr = key
+            if isinstance(key_expr, ast.Name):
+                defs = [x.value for x in own_nodes(m.node) if isinstance(x, ast.Assign) and len(x.targets) == 1
+                        and isinstance(x.targets[0], ast.Name) and x.targets[0].id == key_expr.id]
+                if len(defs) == 1:
+                    key_expr = defs[0]
+            comps = list(key_expr.elts) if isinstance(key_expr, ast.Tuple) else [key_expr]
+            ann = {a.arg: (ast.unparse(a.annotation) if a.annotation is not None else "") for a in m.node.args.args}
+            # parameters the miss branch reads other than through the key value itself
+            keyvar = key.id if isinstance(key, ast.Name) else None
+            direct, stack = set(), [y.id for st in handler.body for y in ast.walk(st) if isinstance(y, ast.Name) and isinstance(y.ctx, ast.Load)]
+            while stack:
+                v = stack.pop()
+                if v in direct or v == keyvar:
+                    continue
+                direct.add(v)
+                stack.extend(deps.get(v, ()))
+            for comp in comps:
+                names = {y.id for y in ast.walk(comp) if isinstance(y, ast.Name)} & params & direct
+                for pn in sorted(names):
+                    lossless = (isinstance(comp, ast.Name) and comp.id == pn) or (
+                        isinstance(comp, ast.Call) and isinstance(comp.func, ast.Name) and comp.func.id in ("tuple", "frozenset", "id", "str")
+                        and len(comp.args) == 1 and isinstance(comp.args[0], ast.Name) and comp.args[0].id == pn) or (
+                        isinstance(comp, ast.Attribute) and comp.attr == "name" and isinstance(comp.value, ast.Name) and comp.value.id == pn
+                        and ann.get(pn, "").endswith("Type"))
+                    if not lossless:
+                        run.report(r, "%s:%s.%s:lossy-key(%s)" % (modname, cname, m.name, pn), m.where(comp),
+                                   "the key of self.%s contains `%s`, a projection of `%s` that different values of `%s` share (the same "
+                                   "leading selection in two merged groups, the same field name on two object types): the entry computed "
+                                   "for one is returned for the other" % (cache, " ".join(ast.unparse(comp).split()), pn, pn))
             for pmiss in sorted(used_params - key_names):
                 run.report(r, "%s:%s.%s:key-omits(%s)" % (modname, cname, m.name, pmiss), m.where(),
                            "%s caches in self.%s under a key built from %s, but the cached value is computed from %s too: calls that "
